@@ -13,8 +13,13 @@ import os
 import sys
 import time
 
+import logging
+import warnings
+
 ROOT = os.path.dirname(os.path.dirname(os.path.abspath(__file__)))
 sys.path.insert(0, ROOT)
+warnings.filterwarnings('ignore')
+logging.disable(logging.CRITICAL)
 
 from pyvc import oblig  # noqa: E402
 
